@@ -75,6 +75,18 @@ Theorem C19_paths_main : forall g a i ds e d,
   snd (dcmstack_main g a i) = ORun ds e -> In d ds -> NoDup (map fo_path (do_files d)).
 Proof. exact dcmstack_paths_distinct. Qed.
 
+(** NOT true across source directories: with --dest-dir the names of different directories may
+    coincide and one output overwrites the other (names are unique per source directory only).
+    Witness: two directories each holding series 8 / "b c", one destination. *)
+Theorem C19_paths_global_refuted :
+  exists g a i ds, snd (dcmstack_main g a i) = ORun ds None /\
+    starts_with_slash (a_output_ext a) = false /\
+    ~ NoDup (concat (map (fun d => map fo_path (do_files d)) ds)).
+Proof.
+  exists ex_g, ex_args3, ex_inputs3. eexists. split; [vm_compute; reflexivity|]. split; [reflexivity|].
+  intros H. inversion H as [|x l Hnotin Hnd]. subst. apply Hnotin. left. reflexivity.
+Qed.
+
 Theorem C19_one_per_group : forall g a i ds d,
   snd (dcmstack_main g a i) = ORun ds None -> In d ds ->
   exists groups, i_groups i (do_group_call d) = Ok groups /\ length (do_files d) = length groups.
